@@ -702,21 +702,33 @@ func c19FixedPrograms() []string {
 func TestVerif_C19_prog(t *testing.T) {
 	s := verifh.New(t, "C19", "prog",
 		"API programs of <= 40 ops over up to 5 clients (originals, clones, clones of clones) and their requests: every client setter group (headers canonical/non-canonical, cookies, path/query/form params, before/after middleware, client and transport round-trip wrappers, retry count/interval/conditions/hooks, dump options, 30 scalar settings incl. base URL, proxy, timeouts, HTTP/2 settings, jar factory, ClearCookies, H2C, TLS certs/roots), request-level counterparts, Clone, R(), executions against a recording origin (first request received, attempts, middleware/wrapper/retry log, dump routing), GetCookies and settings probes; each program ends with a fresh request and a probe on every client; 11 hand-written witness programs first; non-trivial = has a Clone and a later setter and execution")
+	// Programs during which an in-package detector saw one of the known findings at work go to
+	// a lane of their own: the harness reports only the first 25 mismatches of a lane in detail,
+	// and the (expected, excused) mismatches of those programs must not crowd out a new one.
+	sk := verifh.New(t, "C19", "progknown",
+		"the programs of lane prog during which a detector saw a known finding at work (a Wrap changing another client's wrapper slice, a dump setter on a client whose dumper follows another copy of the options, a clone that lost AllowHTTP, SetCerts / SetRootCert* writing into a pool or array another client uses); every case carries that finding's class")
 	w := c19NewWorld()
 	defer w.close()
 	r := s.Rand()
 	run := func(ops []c19Op, fixed bool) {
 		text := c19Text(ops)
 		trace, ptxt, panicked := w.runProgram(ops)
-		if panicked {
-			s.Crash("c19prog "+text, text, ptxt, w.class)
-			return
-		}
+		nt := strings.Contains(text, ";C") && strings.Contains(text, ";E")
 		if w.class != "" {
 			s.Count("class:" + w.class)
+			sk.Count("class:" + w.class)
+			if panicked {
+				sk.Crash("c19prog "+text, text, ptxt, w.class)
+				return
+			}
+			sk.Case("c19prog "+text, trace, true, w.class, nt, text)
+			return
 		}
-		nt := strings.Contains(text, ";C") && strings.Contains(text, ";E")
-		s.Case("c19prog "+text, trace, true, w.class, nt, text)
+		if panicked {
+			s.Crash("c19prog "+text, text, ptxt, "")
+			return
+		}
+		s.Case("c19prog "+text, trace, true, "", nt, text)
 	}
 	for _, p := range c19FixedPrograms() {
 		ops, err := c19ParseProgram(p)
@@ -748,6 +760,7 @@ func TestVerif_C19_prog(t *testing.T) {
 		}
 	}
 	s.Finish()
+	sk.Finish()
 }
 
 // TestVerif_C19_heap: wrapper / slice programs on real clients vs the reference-aware model,
